@@ -44,6 +44,7 @@ type Scenario struct {
 	Plan    []faultsys.Trigger `json:"plan"`
 	Trace   bool               `json:"trace,omitempty"` // fault-free run that reports the RPC counts
 	Par     int                `json:"par,omitempty"`   // session parallelism (default 4; 1 = a cluster of a single machine)
+	Repeat  int                `json:"repeat,omitempty"` // replays only: run the scenario this many times (outcomes that depend on the order in which a recomputed shuffle delivers its rows)
 }
 
 func (s Scenario) String() string {
@@ -552,7 +553,7 @@ func plansFor(program string, par int, counts map[string]int) []Scenario {
 			n = limit
 		}
 		for k := 0; k < n; k++ {
-			if m == "Worker.Read" && k < 12 {
+			if m == "Worker.Read" && (k < 12 || k >= counts[m]-3) {
 				// the machine serving a read dies while the reply streams
 				for _, cut := range []int{100, 3000, 20000} {
 					out = append(out, Scenario{Program: program, Par: par, Plan: []faultsys.Trigger{{Method: m, N: k, Phase: "mid", Victim: "target", CutAfter: cut}}})
@@ -596,6 +597,9 @@ func TestVerifC02SingleKill(t *testing.T) {
 				t.Fatal(err)
 			}
 			scs = append(scs, sc)
+			for r := 1; r < sc.Repeat; r++ {
+				scs = append(scs, sc)
+			}
 		}
 		if err := runScenarios(scs, report(t, rec, tSingle, seen)); err != nil {
 			t.Fatalf("harness: %v", err)
@@ -657,7 +661,10 @@ func TestVerifC02SingleKill(t *testing.T) {
 	for i, sc := range all {
 		tr := sc.Plan[0]
 		must := sc.Par == 1 && tr.Method == "Worker.FuncLocations" ||
-			sc.Program == "big-reduce" && tr.Phase == "mid" && tr.N < 6 && tr.CutAfter >= 3000
+			sc.Program == "big-reduce" && tr.Phase == "mid" && tr.N < 6 && tr.CutAfter >= 3000 ||
+			// the machine serving the final scan dies while a shard streams: the scan re-evaluates the
+			// shard and resumes; a recomputed shuffle output need not hold its rows in the same order
+			tr.Method == "Worker.Read" && tr.Phase == "mid" && tr.CutAfter == 100 && tr.N >= counts[variant{sc.Program, sc.Par}]["Worker.Read"]-3
 		if must && !picked[i] {
 			k++
 			if vt.Mine(k) {
